@@ -949,6 +949,104 @@ def p6g_sequences(ctx, rng, work):
                               what="repeated / overwriting CSV writes changed the table")
 
 
+def build_big(spec):
+    """spec (c13_directed_p6g.array_bytes_specs) -> (points, quads, point data, cell data) as numpy arrays, built directly"""
+    n = int(spec["npoints"])
+    m = n // 2
+    pts = np.zeros((n, 3), dtype=np.float64)
+    pts[:2 * m, 0] = np.tile(np.arange(m, dtype=np.float64), 2) * 0.5
+    pts[m:2 * m, 1] = 1.0
+    if n % 2:
+        pts[-1] = [-1.0, -1.0, 0.25]         # one unconnected point
+    i = np.arange(m - 1, dtype=np.int64)
+    quads = np.stack([i, i + 1, m + i + 1, m + i], axis=1)
+    pd, cd = {}, {}
+    for k, (where, name, dt, tail) in enumerate(spec["fields"]):
+        rows = n if where == "p" else len(quads)
+        count = rows * prodl(tail)
+        bits = 8 * SIZE[dt]
+        with np.errstate(over="ignore"):
+            u = (np.arange(count, dtype=np.uint64) * np.uint64(0x9E3779B97F4A7C15) + np.uint64(int(spec["salt"]) * 1000003 + k)) \
+                >> np.uint64(64 - bits)
+        u = u.astype(np.dtype(f"<u{SIZE[dt]}"))
+        if dt.startswith("float"):
+            expo = (0x7FF << 52) if dt == "float64" else (0xFF << 23)
+            nonfinite = (u & u.dtype.type(expo)) == u.dtype.type(expo)
+            u[nonfinite] &= u.dtype.type(~(1 << (bits - 2)) & ((1 << bits) - 1))     # finite values only
+        a = u.view(np.dtype(dt)).reshape([rows] + list(tail))
+        (pd if where == "p" else cd)[name] = a
+    return pts, quads, pd, cd
+
+
+def run_big(work, spec):
+    """-> None or a description of the first difference (numpy, bit patterns): independent Python expectation (search)"""
+    from fieldcompare.mesh import Mesh, MeshFields, CellType
+    from fieldcompare.io import write, read_field_data
+    pts, quads, pd, cd = build_big(spec)
+    base = work.base()
+    try:
+        with warnings.catch_warnings():
+            warnings.simplefilter("ignore")
+            obj = MeshFields(Mesh(pts, [(CellType.from_name("QUAD"), quads)]), dict(pd), {k: [v] for k, v in cd.items()})
+            path = write(obj, base)
+            back = read_field_data(path)
+            bp = np.asarray(back.domain.points)
+            if bp.dtype != pts.dtype or bp.shape != pts.shape or not np.array_equal(bp.view(np.uint64), pts.view(np.uint64)):
+                return "points differ"
+            cts = [ct.name for ct in back.domain.cell_types]
+            if cts != ["QUAD"] or not np.array_equal(np.asarray(back.domain.connectivity(CellType.from_name("QUAD"))), quads):
+                return f"cells differ (types {cts})"
+            got = {f.name: np.asarray(f.values) for f in back}
+            want = dict(pd)
+            want.update({f"{k} @ QUAD": v for k, v in cd.items()})
+            if len(got) != len(pd) + len(cd):
+                return f"field names {sorted(got)} vs {sorted(pd) + sorted(cd)}"
+            for name, v in pd.items():
+                if name not in got:
+                    return f"point field {name} missing (have {sorted(got)})"
+            for name, v in list(pd.items()) + list(cd.items()):
+                g = got.get(name)
+                if g is None:
+                    cand = [x for k2, x in got.items() if k2.startswith(name + " ") or k2.startswith(name + "_")]
+                    g = cand[0] if len(cand) == 1 else None
+                if g is None:
+                    return f"field {name} missing (have {sorted(got)})"
+                e = v.reshape(len(v), -1) if v.ndim > 1 else v
+                if g.dtype != e.dtype or g.shape != e.shape:
+                    return f"field {name}: dtype/shape {g.dtype}{g.shape} vs {e.dtype}{e.shape}"
+                ub = np.dtype(f"<u{e.dtype.itemsize}")
+                if not np.array_equal(np.ascontiguousarray(g).view(ub), np.ascontiguousarray(e).view(ub)):
+                    bad = int(np.flatnonzero(np.ascontiguousarray(g).view(ub).reshape(-1) != np.ascontiguousarray(e).view(ub).reshape(-1))[0])
+                    return f"field {name}: first differing scalar at flat index {bad} of {e.size}"
+        return None
+    except Exception as e:  # noqa: BLE001
+        return f"raised {type(e).__name__}: {str(e)[:150]}"
+    finally:
+        try:
+            os.remove(base + ".vtu")
+        except OSError:
+            pass
+
+
+def p6g_array_bytes(ctx, work):
+    from fcv import c13_directed_p6g as dg
+    for spec in dg.array_bytes_specs(ctx.tier == "thorough"):
+        bad = run_big(work, spec)
+        sizes = []
+        for where, name, dt, tail in spec["fields"]:
+            rows = spec["npoints"] if where == "p" else spec["npoints"] // 2 - 1
+            sizes.append(8 + rows * SIZE[dt] * prodl(tail))
+        top = max(sizes + [8 + 24 * spec["npoints"]])
+        ctx.case(("vtubig", repr(spec)), nontrivial=True,
+                 tags=[spec["label"], "p6g-array-bytes", "p6g-array-bytes>1MiB" if max(sizes) > 2 ** 20 else
+                       ("p6g-array-bytes~2^20" if max(sizes) > 2 ** 19 else "p6g-array-bytes~2^16")],
+                 sample={"case": {"label": spec["label"], "npoints": spec["npoints"], "field_array_bytes": sizes,
+                                  "largest_array_bytes": top}, "impl": "ok" if bad is None else "bad"})
+        if bad is not None:
+            ctx.violation({"kind": "vtubig", "spec": spec}, bad, "read back bit-identical (numpy comparison)",
+                          what="VTU round trip of a large data array changed the data")
+
+
 def p6g_csv(ctx, rng, work):
     from fcv import c13_directed_p6g as dg
     tabs = dg.csv_tables(rng, rand_bits, [0, 2, 17, 1000, 1001, 4097] + ctx.scale([], [255, 256, 65536, 65537]))
@@ -1063,6 +1161,7 @@ def _run(ctx, rng, work):
     for t in ADVERSARIAL_TABLES:
         check_csv(ctx, work, t, None, ["csv-adversarial"])
     p6g_sequences(ctx, rng, work)
+    p6g_array_bytes(ctx, work)
     p6g_csv(ctx, rng, work)
     ctx.spec_viol = [shrink(v) for v in ctx.spec_viol[:40]]
 
@@ -1119,6 +1218,10 @@ def replay(ctx, payload) -> int:
                               [tuple(x) for x in c["steps"]])
             ok = bad is None
             print("replay: " + ("every file reads back to what was written last" if ok else f"step {bad[0]}: {bad[1]}"))
+        elif c.get("kind") == "vtubig":
+            bad = run_big(work, c["spec"])
+            ok = bad is None
+            print("replay: " + ("round trip exact" if ok else bad))
         elif c.get("kind") == "csvseq":
             bad = run_csv_seq(work, c["tables"], [tuple(x) for x in c["steps"]])
             ok = bad is None
